@@ -33,6 +33,10 @@ func init() {
 
 type transcript [][]byte // per reply: header(12) || clear body
 
+// c09Flags gives some sessions the single-connect bit (and other flag bits) on all of
+// their packets; a session's flag octet is its own business and must be mirrored to it only.
+var c09Flags = map[uint32]int{}
+
 func (t transcript) equal(o transcript) bool {
 	if len(t) != len(o) {
 		return false
@@ -56,7 +60,7 @@ func c09Solo(ref *refsrv.Ref, key []byte, remote int, sid uint32, rcp recipe) (t
 	}()
 	var t transcript
 	for i, p := range rcp.Pkts {
-		h := rfc8907.Header{Major: 0xc, Minor: p.Minor, Type: p.Type, Seq: 1 + 2*i, Flags: p.Flags, Session: sid}
+		h := rfc8907.Header{Major: 0xc, Minor: p.Minor, Type: p.Type, Seq: 1 + 2*i, Flags: p.Flags | c09Flags[sid], Session: sid}
 		res := rc.send(h, p.Body, true)
 		if res.Err != nil {
 			return nil, false
@@ -188,7 +192,7 @@ func runC09(b *mon.B) {
 					}
 				}
 				p := recs[si].Pkts[pos[si]]
-				h := rfc8907.Header{Major: 0xc, Minor: p.Minor, Type: p.Type, Seq: 1 + 2*pos[si], Flags: p.Flags, Session: sids[si]}
+				h := rfc8907.Header{Major: 0xc, Minor: p.Minor, Type: p.Type, Seq: 1 + 2*pos[si], Flags: p.Flags | c09Flags[sids[si]], Session: sids[si]}
 				pos[si]++
 				res := rc.send(h, p.Body, true)
 				if res.Err != nil {
@@ -291,19 +295,52 @@ func runC09(b *mon.B) {
 		n := 2 + r.Intn(7)
 		recs := make([]recipe, n)
 		sids := make([]uint32, n)
+		for k2 := range c09Flags {
+			delete(c09Flags, k2)
+		}
 		for i := range recs {
 			recs[i] = c09Recipe(r, sc)
 			sids[i] = r.U32()
+			if k%2 == 0 {
+				c09Flags[sids[i]] = r.Pick(0, 0, 4, 4, 0x10)
+			}
 		}
 		order := interleave(r, recs)
 		runCase("multiplexed", recs, sids, order)
 		if k%3 == 0 {
 			same := r.U32()
+			for k2 := range c09Flags {
+				delete(c09Flags, k2)
+			}
 			for i := range sids {
 				sids[i] = same // session ids differ only by connection
 			}
 			runCase("concurrent-connections", recs, sids, nil)
 		}
+	}
+	// ---- one login interrupted by MANY other sessions that stay open on the same connection
+	for k2 := range c09Flags {
+		delete(c09Flags, k2)
+	}
+	for rep := 0; rep < b.N1(2, 12); rep++ {
+		n := r.Pick(63, 64, 65, 130, 200)
+		u := []string{"alice", "bob", "heidi"}[r.Intn(3)]
+		victim := asciiLogin(u, false, sc.Users[u].Password, 0)
+		recs := []recipe{victim}
+		sids := []uint32{r.U32()}
+		for i := 0; i < n; i++ {
+			recs = append(recs, asciiLogin("erin", false, "nope", 0))
+			sids = append(sids, r.U32())
+		}
+		order := []int{0}
+		for i := 1; i <= n; i++ {
+			order = append(order, i)
+		}
+		order = append(order, 0, 0)
+		for i := 1; i <= n; i++ {
+			order = append(order, i, i)
+		}
+		runCase("multiplexed", recs, sids, order)
 	}
 	for h := range overlapHashes {
 		b.Class("overlap:" + h)
